@@ -1,4 +1,4 @@
-"""PROTOTYPE C14: adding a dependency keeps the manifest valid, complete, duplicate-free; at most one manifest updated."""
+"""C14: adding a dependency keeps the manifest valid, complete, duplicate-free; at most one manifest updated."""
 import ast, base64, collections, configparser, json, os, random, re, sys, tomllib
 from packaging.requirements import Requirement, InvalidRequirement
 from packaging.utils import canonicalize_name
@@ -34,7 +34,8 @@ def gen_setup_py(rnd, present):
     return f"from setuptools import setup\n\nsetup(\n    name=\"x\",\n    version=\"1\",\n    install_requires={lst},\n    python_requires=\">=3.9\",\n)\n"
 def gen_setup_cfg(rnd, present):
     deps = rnd.sample(PKGS, rnd.randint(0, 3)) + ([present] if present else [])
-    if rnd.random() < 0.3 and deps: ir = "install_requires = " + ", ".join(d for d in deps if ";" not in d) + "\n"
+    inline = [d for d in deps if ";" not in d][:1]
+    if rnd.random() < 0.3 and inline: ir = "install_requires = " + inline[0] + "\n"   # inline form: ONE requirement (setuptools splits this value on newlines or ';', never on ',')
     else: ir = "install_requires =\n" + "".join(f"    {d}\n" for d in deps)
     return "[metadata]\nname = x\n# comment\n\n[options]\npackages = find:\n" + ir + "\n[options.extras_require]\ndev =\n    pytest\n"
 GEN = {"requirements.txt": gen_requirements, "pyproject.toml": gen_pyproject, "setup.py": gen_setup_py, "setup.cfg": gen_setup_cfg}
@@ -67,7 +68,9 @@ def parse(kind, text):
         return names, other
     cp = configparser.ConfigParser(); cp.read_string(text)
     raw = cp["options"].get("install_requires", "") if "options" in cp else ""
-    for part in re.split(r"[\n,]", raw):
+    # setuptools semantics for install_requires (list-semi): split on newlines if the value has any, else on ';'
+    parts = raw.splitlines() if "\n" in raw.strip() else ([raw] if ";" not in raw or re.search(r";\s*(python_|sys_|os_|platform_|implementation_|extra)", raw) else raw.split(";"))
+    for part in parts:
         if part.strip(): names[canonicalize_name(Requirement(part.strip()).name)] += 1
     other = {s: {k: v for k, v in cp[s].items() if k != "install_requires"} for s in cp.sections()}
     return names, other
@@ -103,7 +106,9 @@ def judge(job, res):
         except Exception: continue
         try: na, oa = parse(kind, after)
         except Exception as ex:
-            v.append(Violation("C14", f"manifest-no-longer-parses/{kind}", repr(ex)[:100], dict(w, after=after))); continue
+            key = f"manifest-no-longer-parses/{kind}"
+            if kind == "setup.cfg" and re.search(r"^install_requires\s*=\s*\S", before, flags=re.M): key = "setup-cfg-inline-list-comma-joined"   # value on the key line: the writer appends ', <req>,' to it
+            v.append(Violation("C14", key, f"{kind} no longer parses after the update: {ex!r}"[:200], dict(w, after=after))); continue
         lost = nb - na
         if lost: v.append(Violation("C14", f"requirement-lost/{kind}", f"lost {dict(lost)}", dict(w, after=after)))
         if oa != ob: v.append(Violation("C14", f"unrelated-content-changed/{kind}", "non-dependency content differs", dict(w, after=after)))
